@@ -419,10 +419,19 @@ func check(c Case, st *rig.Stats) error {
 		}
 		// dispatch, parameters, middleware order, Allow
 		var live []*pat.Pattern
+		outside := false // the table holds a pattern the harness' parser does not understand (e.g. "/{x}/{/{q}")
 		for _, p := range model.Live() {
 			if pp, err := pat.Parse(p, ic); err == nil {
 				live = append(live, pp)
+			} else {
+				outside = true
 			}
+		}
+		if cleaned && outside {
+			// whether a witness is ambiguous cannot be decided against such a pattern, and after a
+			// Prefix.Clean only unambiguous witnesses are comparable: nothing to compare at this step
+			classes = append(classes, "pattern-outside-grammar-after-Prefix.Clean(dispatch-not-compared)")
+			continue
 		}
 		for _, p := range live {
 			w, _, ok := p.Witness(c.Variant)
